@@ -103,6 +103,14 @@ CHECKS = {
             "normalised coordinate; point sequences and recommendations must be the images.",
             "Dyadic split-fraction menu; default-delta DOO shadowed by translations only; Zooming / default-delta DOO not judged under inexact arithmetic.",
             "stateless bounded-exhaustive script enumeration with lock-step differential (shadow) execution on affine images"),
+    "C14": ("model_checking", "3 C14",
+            "(a) every algorithm variant x 3 partitions x NumPy seeds x every reward script in {0,1}^5: twice in-process (after two unrelated "
+            "instances lived in that process, with different random.seed) and once in a pristine second process with another "
+            "PYTHONHASHSEED, random.seed and a shifted clock - identical runs; (b) ALL interleavings of the pull/receive_reward half-steps of "
+            "two independently constructed instances (every pair of RNG-free variants incl. same class) x every reward assignment: each "
+            "instance reproduces its solo trace and recommendation; (c) the domain argument is deep-compared before/after.",
+            "RNG-free partitions for (b); solo traces computed by the same code on fresh objects; a failure of (a) that does not reproduce is itself reported.",
+            "exhaustive enumeration of interleavings of two instances (schedule exploration) and of seeds x reward scripts with cross-process differential execution"),
 }
 
 LATER = {
